@@ -1,6 +1,8 @@
 //! scenario families, one module per property
 use crate::explore::Scenario;
 
+mod c01;
+mod c02;
 mod c03;
 mod c04;
 mod c19;
@@ -10,6 +12,8 @@ pub fn build(prop: &str, tier: &str) -> Vec<Scenario> {
     let quick = tier != "thorough";
     match prop {
         "SMOKE" => smoke::build(quick),
+        "C01" => c01::build(quick),
+        "C02" => c02::build(quick),
         "C03" => c03::build(quick),
         "C04" => c04::build(quick),
         "C19" => c19::build(quick),
